@@ -175,7 +175,7 @@ impl FrequencySketch {
             count += (*entry & ONE_MASK).count_ones();
             *entry = (*entry >> 1) & RESET_MASK;
         }
-        self.size = (self.size >> 1) - (count >> 2);
+        self.size = self.size.saturating_sub(count >> 2) >> 1;
         #[cfg(mini_moka_verif)]
         {
             self.verif_resets = self.verif_resets.wrapping_add(1);
